@@ -1,7 +1,9 @@
 from .. Error import RINGReaderError
 from .. RDkitWrapper.ReactionQuery import ReactionQuery, BondForm, \
     BondIncrease, BondDecrease, BondModify, AtomTypeModify, BondBreak,\
-    RadicalIncrease, RadicalDecrease, ChargeIncrease, ChargeDecrease
+    RadicalIncrease, RadicalDecrease, ChargeIncrease, ChargeDecrease,\
+    RadicalModify
+from .. RDkitWrapper.MolQuery import AtomRadical
 from .MolQueryRead import MolQueryReader
 from rdkit import Chem
 
@@ -293,15 +295,27 @@ class ReactionQueryReader(object):
 
     def ReadRadicalModify(self, tree, reactionquery):
         assert tree[0][0] == 'AtomLabel'
-        _, idx, _, _, atom = self.ReadAtomLabel(tree[0][1:], reactionquery)
+        _, idx, reactant_name, idx_in_query, atom = self.ReadAtomLabel(
+            tree[0][1:], reactionquery)
         radical = tree[1]
         if radical < 0:
             raise RINGReaderError("RadicalModify: Number of radical",
                                   "electrons cannot be below 0")
-        self.electronbalance[idx] -= radical - atom.GetNumRadicalElectrons()
-        reactionquery.transformations.append(AtomTypeModify(idx,
-                                                            radical,
-                                                            0, 0))
+        # The number of radical electrons the atom has before the edit is the
+        # one declared by the reactant pattern (the query atom itself does
+        # not carry it).
+        declared = None
+        for constraint in reactionquery.reactantquery[reactant_name].\
+                atom_constraints[idx_in_query]:
+            if isinstance(constraint, AtomRadical) and not constraint.negate \
+                    and constraint.CN.operator == '=':
+                declared = constraint.CN.n
+        if declared is None:
+            raise RINGReaderError("RadicalModify: the reactant pattern does "
+                                  "not declare the number of radical "
+                                  "electrons of the atom")
+        self.electronbalance[idx] -= radical - declared
+        reactionquery.transformations.append(RadicalModify(idx, radical))
 
     def ReadRadicalIncrease(self, tree, reactionquery):
         assert tree[0][0] == 'AtomLabel'
